@@ -13,7 +13,9 @@ Definition is_hdr (n : str) : bool := is_name n "Ch" || is_name n "Pt" || is_nam
 Definition has_hdr_args (a : list arg) : bool := match po_args (fst (parse_opts specOptHeader a init_st)) with [] => false | _ => true end.
 Definition hdr_block (b : block) : bool := match b with BMacro n a _ => is_hdr n && has_hdr_args a | _ => false end.
 Definition hdr_count (bs : list block) : nat := List.length (filter hdr_block bs).
-Definition in_fragH (b : block) : Prop := in_frag b \/ (exists n a l, b = BMacro n a l /\ is_hdr n = true).
+Definition tc_no_mini (a : list arg) : Prop := flag "mini" (fst (parse_opts specOptTc a init_st)) = false.
+Definition in_fragH (b : block) : Prop :=
+  in_frag b \/ (exists n a l, b = BMacro n a l /\ is_hdr n = true) \/ (exists a l, b = BMacro (R "Tc") a l /\ tc_no_mini a).
 
 Definition KS (s : st) : tocinfo * list lox := (toc s, lox_toc s).
 Definition Q (p : bool) (N : nat) (rest : list block) (s : st) : Prop :=
@@ -23,8 +25,9 @@ Definition Q (p : bool) (N : nat) (rest : list block) (s : st) : Prop :=
 
 Lemma Side_change K K' s s' : Side K s -> mtags s' = mtags s -> inl s' = inl s -> asis s' = asis s -> ifdepth s' = ifdepth s -> udef s' = udef s ->
   umacros s' = umacros s -> bf s' = bf s -> dtags s' = dtags s -> verse s' = verse s -> format s' = format s -> mode s' = mode s ->
-  panicked s' = panicked s -> ivars s' = ivars s -> params s' = params s -> toc s' = fst K' -> lox_toc s' = snd K' -> Side K' s'.
-Proof. intros [A1 A3 A4 A5 A6 A7 A8 A9 A10 A11 A12 A13 A14 A15 A16 A17] E1 E3 E4 E5 E6 E7 E8 E9 E10 E11 E12 E13 E14 E15 E16 E17.
+  panicked s' = panicked s -> ivars s' = ivars s -> params s' = params s -> toc s' = fst K' -> lox_toc s' = snd K' ->
+  lox_lof s' = lox_lof s -> lox_lot s' = lox_lot s -> lox_lop s' = lox_lop s -> Side K' s'.
+Proof. intros [A1 A3 A4 A5 A6 A7 A8 A9 A10 A11 A12 A13 A14 A15 A16 A17 A18 A19 A20] E1 E3 E4 E5 E6 E7 E8 E9 E10 E11 E12 E13 E14 E15 E16 E17 E18 E19 E20.
   split; try congruence; try (unfold fmt in *; rewrite E11; exact A11); try (rewrite E1; exact A1). Qed.
 Lemma P_change K K' p s s' : P K p s -> Side K' s' -> sblock s' = sblock s -> process s' = process s ->
   out s' = out s -> view s' = view s -> buf s' = buf s -> format s' = format s -> P K' p s'.
@@ -247,6 +250,69 @@ Proof. intros Hn Hmac Harg Hc (HP & Hok & Hlen & Hcnt). pose proof HP as (HS & H
     + rewrite app_length, Hh3. cbn [List.length]. cbn [plus] in Hcnt. clear -Hcnt Hlen. lia.
 Qed.
 
+(* ---------- Tc: the table of contents (full, summary, unnumbered, titled; not -mini) ---------- *)
+Lemma toc_string_nomini_eqd d opts s : flag "mini" opts = false -> snd (X.toc_string d opts s) ~~ s.
+Proof. intro Hmini. unfold X.toc_string. destruct (lox_toc s) as [|e0 l0]; [apply err_eqd|]. cbv zeta. rewrite Hmini. cbn [andb].
+  destruct d; cbn [snd]; try reflexivity.
+  destruct (opt "title" opts) as [t0|]; [|reflexivity].
+  pose proof (render_text_eqd t0 s) as H. destruct (render_text t0 s) as [x s1]. exact H. Qed.
+
+Lemma macro_tc_Q p N rest s a l : args s = a -> tc_no_mini a -> Q p N (BMacro (R "Tc") a l :: rest) s -> Q p N rest (macro_tc s).
+Proof. intros Harg Hnm HQ. pose proof HQ as (HP & Hok & Hcnt). pose proof HP as (HS & Hsb & Hpr & HI).
+  assert (Hcnt' : if p then (hcount (toc s) + hdr_count rest)%nat = List.length (lox_toc s)
+                  else List.length (lox_toc s) = hcount (toc s) /\ (hcount (toc s) + hdr_count rest)%nat = N) by (rewrite hdr_count_cons in Hcnt; exact Hcnt).
+  unfold macro_tc. rewrite Hpr. destruct p; cbn [negb]; [|split; [exact HP|split; [exact Hok|exact Hcnt']]].
+  rewrite (sd_fmt _ _ HS).
+  destruct (close_unclosed_inline_P _ _ HP) as [HP1 Hsi1].
+  assert (Ha1 : args (close_unclosed_inline s) = a) by (unfold close_unclosed_inline; destruct (sinline s); exact Harg).
+  set (s1 := close_unclosed_inline s) in *. clearbody s1.
+  pose proof (parse_opts_eqd specOptTc (args s1) s1) as E2.
+  assert (Hmini : flag "mini" (fst (parse_opts specOptTc (args s1) s1)) = false).
+  { rewrite Ha1. rewrite (parse_opts_iv specOptTc a s1 init_st); [exact Hnm|rewrite (sd_iv _ _ (proj1 HP1)); reflexivity]. }
+  destruct (parse_opts specOptTc (args s1) s1) as [o s2]. cbn [fst snd] in *.
+  assert (E2' : useless o s2 ~~ s1) by (unfold useless; destruct (po_args o); [exact E2|eapply eqd_trans; [apply err_eqd|exact E2]]).
+  pose proof (P_eqd _ _ _ _ E2' HP1) as HP2.
+  assert (Hsi2 : sinline (useless o s2) = []) by (rewrite (eqd_get sinline _ _ (fun _ => eq_refl) E2'); exact Hsi1).
+  destruct (end_par_P _ _ HP2 Hsi2) as (HP3 & Hp3 & Hsi3 & F3). cbv zeta in HP3, Hp3, Hsi3, F3.
+  set (s3 := end_par PNormal (useless o s2)) in *. clearbody s3.
+  pose proof HP3 as (HS3 & Hsb3 & Hpr3 & HI3). specialize (HI3 eq_refl).
+  destruct (P_toc _ _ _ HP3) as [Ht3 Hl3]. cbn [fst snd KS] in Ht3, Hl3.
+  set (n := List.length (filter (fun f => flag f o) ["toc"%string; "lof"%string; "lot"%string; "lop"%string])).
+  set (o1 := if Nat.eqb n 0 then mkPo (po_opts o) (R "toc" :: po_flags o) (po_args o) else o).
+  assert (Hmini1 : flag "mini" o1 = false) by (unfold o1; destruct (Nat.eqb n 0); [unfold flag in *; cbn [po_flags existsb]; rewrite Hmini; reflexivity|exact Hmini]).
+  (* whatever is written is a balanced chunk, the rest of the state is kept up to diagnostics *)
+  assert (Hres : exists c sx, table_of_contents o1 s3 = wl c sx /\ sx ~~ s3 /\ balanced_chunk (flat c)).
+  { unfold table_of_contents. rewrite (sd_fmt _ _ HS3). unfold X.table_of_contents.
+    destruct (flag "toc" o1).
+    - unfold X.write_toc. pose proof (toc_string_nomini_eqd X.DXhtml o1 s3 Hmini1) as Ets.
+      assert (Hoks : Forall entry_ok (lox_toc s3)) by (rewrite Hl3; exact Hok).
+      assert (Hdt : textual (X.param "document-title" s3)) by (unfold X.param; rewrite (sd_pa _ _ HS3); apply textual_nil).
+      pose proof (fun t sx => toc_string_balanced X.DXhtml o1 s3 t sx (sd_fmt _ _ HS3) Hoks Hdt) as Hbal.
+      destruct (X.toc_string X.DXhtml o1 s3) as [[t|] sx]; cbn [snd] in Ets.
+      + exists [t], sx. split; [reflexivity|]. split; [exact Ets|]. change (flat [t]) with (t ++ []). rewrite app_nil_r. apply (Hbal t sx eq_refl).
+      + exists [], sx. split; [reflexivity|]. split; [exact Ets|intro; reflexivity].
+    - unfold X.xhtml_lox. rewrite (sd_lot _ _ HS3), (sd_lof _ _ HS3), (sd_lop _ _ HS3).
+      destruct (flag "lot" o1); [exists [], (err "warning:no LoX information found" s3); split; [reflexivity|split; [apply err_eqd|intro; reflexivity]]|].
+      destruct (flag "lof" o1); [exists [], (err "warning:no LoX information found" s3); split; [reflexivity|split; [apply err_eqd|intro; reflexivity]]|].
+      destruct (flag "lop" o1); [exists [], (err "warning:no LoX information found" s3); split; [reflexivity|split; [apply err_eqd|intro; reflexivity]]|].
+      exists [], s3. split; [reflexivity|split; [reflexivity|intro; reflexivity]]. }
+  assert (Hfin : exists c sx, (if Nat.ltb 1 n then err "only one of the -toc, -lof and -lot options should bet set" s3 else table_of_contents o1 s3) = wl c sx /\ sx ~~ s3 /\ balanced_chunk (flat c)).
+  { destruct (Nat.ltb 1 n); [exists [], (err "only one of the -toc, -lof and -lot options should bet set" s3); split; [reflexivity|split; [apply err_eqd|intro; reflexivity]]|exact Hres]. }
+  destruct Hfin as (c & sx & -> & Ex & Hbc).
+  pose proof (P_eqd _ _ _ _ Ex HP3) as HPx. pose proof HPx as (HSx & Hsbx & Hprx & HIx). specialize (HIx eq_refl).
+  assert (Ff : wl c sx ~= s3) by (eapply eqf_trans; [apply wl_eqf|apply eqd_eqf; exact Ex]).
+  assert (Hk : KS (wl c sx) = KS s) by (unfold KS; rewrite (eqf_get toc _ _ (fun _ => eq_refl) Ff), (eqf_get lox_toc _ _ (fun _ => eq_refl) Ff), Ht3, Hl3; reflexivity).
+  split; [rewrite Hk|rewrite (eqf_get lox_toc _ _ (fun _ => eq_refl) Ff), (eqf_get toc _ _ (fun _ => eq_refl) Ff), Hl3, Ht3; split; [exact Hok|exact Hcnt']].
+  split; [apply (Side_eqf _ _ _ Ff HS3)|]. split; [rewrite (eqf_get sblock _ _ (fun _ => eq_refl) Ff); exact Hsb3|].
+  split; [rewrite (eqf_get process _ _ (fun _ => eq_refl) Ff); exact Hpr3|]. intros _.
+  assert (Hbx : par sx = false -> buf sx = []) by (apply HIx).
+  apply (Inv_step sx _ (flat c) HIx).
+  - apply out_wl. exact Hbx.
+  - unfold elems. rewrite view_wl. apply Hbc.
+  - apply bufc_wl. exact Hbx.
+  - rewrite fmt_wl. exact (sd_fmt _ _ HSx).
+Qed.
+
 (* ---------- the dispatcher ---------- *)
 Lemma in_frag_not_hdr b : in_frag b -> hdr_block b = false.
 Proof. destruct b as [n a l|t l]; [|reflexivity]. cbn [in_frag hdr_block]. intros [-> | [-> | [-> | [-> | [-> | ->]]]]]; reflexivity. Qed.
@@ -254,7 +320,7 @@ Lemma Q_same p N rest s s' : KS s' = KS s -> P (KS s) p s' -> Q p N rest s -> Q 
 Proof. intros Hk HP' (_ & Hok & Hcnt). unfold KS in Hk. injection Hk as Ht Hl. split; [unfold KS; rewrite Ht, Hl; exact HP'|]. rewrite Hl, Ht. split; assumption. Qed.
 
 Lemma step_fragH pb p N b rest c s : in_fragH b -> Q p N (b :: rest) s -> Q p N rest (snd (step pb b (c, s))).
-Proof. intros Hb HQ. destruct Hb as [Hb | (n & a & l & -> & Hn)].
+Proof. intros Hb HQ. destruct Hb as [Hb | [(n & a & l & -> & Hn) | (a & l & -> & Hnm)]].
   - (* not a header: counters and entries untouched *)
     pose proof HQ as (HP & Hok & Hcnt).
     pose proof (step_frag (KS s) pb p b c s Hb HP) as HP'.
@@ -281,6 +347,22 @@ Proof. intros Hb HQ. destruct Hb as [Hb | (n & a & l & -> & Hn)].
     pose proof HQ1 as (HP1 & _).
     assert (Hk : KS (after_handler n s1) = KS s1) by (unfold KS, after_handler; destruct (elided s1); [reflexivity|]; destruct (is_control_name n); reflexivity).
     apply (Q_same p N rest s1); [exact Hk|apply P_after_handler; exact HP1|exact HQ1].
+  - (* a table of contents *)
+    unfold step. cbv zeta.
+    pose proof HQ as (HP & Hok & Hcnt).
+    destruct (P_set_regs (KS s) p (BMacro (R "Tc") a l) s HP) as [HP0 Hc0].
+    assert (HQ0 : Q p N (BMacro (R "Tc") a l :: rest) (set_regs (BMacro (R "Tc") a l) s)) by (apply (Q_same p N _ s); [reflexivity|exact HP0|exact HQ]).
+    set (s0 := set_regs (BMacro (R "Tc") a l) s) in *.
+    pose proof HP0 as (HS0 & _).
+    rewrite (sd_if _ _ HS0), (sd_udef _ _ HS0). cbn [Nat.ltb Nat.leb]. rewrite (sd_inl _ _ HS0), (sd_um _ _ HS0). cbn [assoc].
+    assert (Ebf : bf_check (R "Tc") s0 = s0) by (unfold bf_check; rewrite (sd_bf _ _ HS0); reflexivity).
+    change (control_builtin pb (R "Tc")) with (@None (cst -> cst)). change (builtin (R "Tc")) with (Some macro_tc). cbn [snd]. rewrite Ebf.
+    assert (Harg : args s0 = a) by reflexivity.
+    pose proof (macro_tc_Q p N rest s0 a l Harg Hnm HQ0) as HQ1.
+    clearbody s0. set (s1 := macro_tc s0) in *. clearbody s1.
+    pose proof HQ1 as (HP1 & _).
+    assert (Hk : KS (after_handler (R "Tc") s1) = KS s1) by (unfold KS, after_handler; destruct (elided s1); reflexivity).
+    apply (Q_same p N rest s1); [exact Hk|apply P_after_handler; exact HP1|exact HQ1].
 Qed.
 
 Theorem fragH_invariant p N : forall fuel bs cs, Forall in_fragH bs -> Q p N bs (snd cs) -> Q p N [] (snd (run_blocks (S fuel) bs cs)).
@@ -299,7 +381,7 @@ Proof. intros ((HS & _) & Hok & Hlen & Hcnt) HN.
   assert (Hm : mode (reset s) = 0%nat) by exact (sd_mode _ _ HS).
   unfold exp_reset. rewrite Hf, Hm.
   split; [|split; [exact Hok|]].
-  - split; [split; try reflexivity; [exact (sd_mk _ _ HS)|exact (sd_dt _ _ HS)|exact Hf|exact Hm|exact (sd_pa _ _ HS)]|]. split; [constructor|]. split; [reflexivity|]. intros _.
+  - split; [split; try reflexivity; [exact (sd_mk _ _ HS)|exact (sd_dt _ _ HS)|exact Hf|exact Hm|exact (sd_pa _ _ HS)|exact (sd_lof _ _ HS)|exact (sd_lot _ _ HS)|exact (sd_lop _ _ HS)]|]. split; [constructor|]. split; [reflexivity|]. intros _.
     split; [reflexivity|reflexivity|exact Hf].
   - change (lox_toc (reset s)) with (lox_toc s). change (hcount (toc (reset s))) with 0%nat. cbn [plus]. unfold hdr_count in *. cbn [filter List.length] in Hcnt. clear -Hlen Hcnt HN. lia.
 Qed.
@@ -341,6 +423,8 @@ new paragraph
 .Sm strong <t> .
 .Ed
 .Ch
+.Tc
+.Tc -summary -title Contents -nonum
 e
 .Bm
 left open
@@ -361,10 +445,26 @@ Example headers_example :
 new paragraph
 <em>strong &lt;t&gt;</em>.</p>
 </div>
+<div class=""toc"">
+  <ul>
+    <li><a href=""#s1"">1. First &lt;chapter&gt;</a>
+    <ul>
+      <li><a href=""#s2"">A <em>section</em>title</a>
+      </li>
+    </ul></li>
+  </ul>
+</div>
+<div class=""toc"">
+  <h2 id=""toc-title"" class=""toc-title"">Contents</h2>
+  <ul>
+    <li><a href=""#s1"">First &lt;chapter&gt;</a>
+    </li>
+  </ul>
+</div>
 <p>e
 <em>left open</em></p>
 ").
 Proof. split; [|vm_compute; split; reflexivity].
   vm_compute.
   repeat (apply Forall_cons; [first [left; first [exact I | left; reflexivity | right; left; reflexivity | right; right; left; reflexivity | right; right; right; left; reflexivity
-    | right; right; right; right; left; reflexivity | right; right; right; right; right; reflexivity] | right; eexists _, _, _; split; reflexivity]|]). apply Forall_nil. Qed.
+    | right; right; right; right; left; reflexivity | right; right; right; right; right; reflexivity] | right; left; eexists _, _, _; split; reflexivity | right; right; eexists _, _; split; reflexivity]|]). apply Forall_nil. Qed.
